@@ -21,6 +21,8 @@ IsOk(x)   == x.k = "ok"
 IsFail(x) == x.k = "fail"
 IsAny(x)  == x.k = "any"
 
+NotTooLong == {"ErrInputTooLong"}
+
 SeqRange(s) == {s[i] : i \in 1..Len(s)}
 
 \* does the observed sentinel list (sequence of names) satisfy a Fail expectation?
